@@ -119,7 +119,8 @@ PROPS = {
         contracts=[],
         functions=[],
         case_functions=[dict(module='vf.contracts.layout', key='pygyro/model/layout.py::Layout.__init__'),
-                        dict(module='vf.contracts.handler_init', key='pygyro/model/layout.py::LayoutHandler.__init__')],
+                        dict(module='vf.contracts.handler_init', key='pygyro/model/layout.py::LayoutHandler.__init__'),
+                        dict(module='vf.contracts.grid_access', key='pygyro/model/grid.py::Grid')],
         bounded=[dict(module='vf.rt.bounded_layout', prop='C02',
                       bound='exhaustive 1<=p<=n<=24 (quick) / 80 (thorough) for the partition; Grid accessors and buffer sizes on '
                             'production and seeded random process grids')],
